@@ -5,6 +5,7 @@ import (
 	"math/rand"
 	"net"
 	"os"
+	"sort"
 	"sync"
 	"sync/atomic"
 	"testing"
@@ -29,8 +30,10 @@ func TestC49(t *testing.T) {
 	rnd := vt.Rand()
 	mkServers := func(n, style int) []string {
 		out := make([]string, 0, n)
-		a, b := rnd.Intn(200), 1+rnd.Intn(20)
-		port := 11211
+		// numbering starts just below a digit-length boundary (9 -> 10, 9999 -> 10000) so that most
+		// lists differ in natural and in lexicographic order
+		a, b := rnd.Intn(200), 4+rnd.Intn(6)
+		port := 9990 + rnd.Intn(8)
 		for i := 0; i < n; i++ {
 			switch style % 4 {
 			case 3: // unix sockets with increasing numbers
@@ -143,7 +146,7 @@ func runC49(c vt.Case) vt.Event {
 	if add != "" {
 		rank[add] = pos
 	}
-	ev := vt.Event{"ok": false, "msg": "", "single": []int{}, "batch": []int{}, "perm": []int{}, "before": []int{}, "after": []int{}, "new": pos}
+	ev := vt.Event{"ok": false, "msg": "", "single": []int{}, "batch": []int{}, "perm": []int{}, "lex": []int{}, "before": []int{}, "after": []int{}, "new": pos}
 	fail := func(err error) vt.Event { ev["msg"] = errStr(err); return ev }
 	pick := func(s *cacheutil.MemcachedJumpHashSelector) ([]int, error) {
 		out := make([]int, len(keys))
@@ -205,7 +208,19 @@ func runC49(c vt.Case) vt.Event {
 		if err != nil {
 			return fail(err)
 		}
-		ev["ok"], ev["single"], ev["batch"], ev["perm"] = true, single, batch, perm
+		// a third selector is given the servers in plain lexicographic order (the way a sorted
+		// configuration file lists them)
+		lexed := append([]string{}, servers...)
+		sort.Strings(lexed)
+		var sel3 cacheutil.MemcachedJumpHashSelector
+		if err := sel3.SetServers(lexed...); err != nil {
+			return fail(err)
+		}
+		lex, err := pick(&sel3)
+		if err != nil {
+			return fail(err)
+		}
+		ev["ok"], ev["single"], ev["batch"], ev["perm"], ev["lex"] = true, single, batch, perm, lex
 		return ev
 	}
 	if err := sel.SetServers(shuffled()...); err != nil {
